@@ -146,7 +146,17 @@ def battery():
                           tags.p("x"), lang="en").render()
         expect_same("document rendered again after a tag inside its content changed",
                     (r3["html"], deps_sig(r3["dependencies"])), (f3["html"], deps_sig(f3["dependencies"])))
-        return dg(h1, d2.render()["html"], str(page), r3["html"])
+        # head_content(): a payload is changed after the first dependency was built from it; a new
+        # head_content() of the ORIGINAL markup is a dependency of its own with the original markup
+        t1 = tags.title("orig")
+        hc1 = head_content(t1)
+        t1.append("-changed")
+        hc2 = head_content(tags.title("orig"))
+        expect_same("head_content built after an equal payload was changed",
+                    (hc2.name, hc2.head.get_html_string(), hc2 is hc1, HTMLDocument(tags.div(hc2)).render()["html"]),
+                    (hc1.name, "<title>orig</title>", False,
+                     HTMLDocument(tags.div(head_content(tags.title("orig")))).render()["html"]))
+        return dg(h1, d2.render()["html"], str(page), r3["html"], hc1.name)
 
     def text_document_b():
         ser = dep("solo").serialize_to_script_json().get_html_string()
